@@ -51,9 +51,12 @@ class HistoryFamily:
 
     # ------------------------------------------------------------------------------------------ generation
     def gen_lazy1(self, rng, tier, max_ops=7):
-        nobj = rng.randint(3, 8)
+        # (one case in eight has a domain of 21-30 objects: the library treats variables with more than 20 memoised elements
+        #  specially when a query has no condition - it warns about a cartesian product)
+        big = rng.random() < 0.125
+        nobj = rng.randint(22, 30) if big else rng.randint(3, 8)
         heap = gen_query.gen_heap(rng, nobj, True)
-        dom = rng.sample(range(nobj), rng.randint(1, nobj))
+        dom = rng.sample(range(nobj), rng.randint(21 if big else 1, nobj))
         if rng.random() < 0.3:
             for _ in range(rng.randint(1, 3)):
                 dom.insert(rng.randrange(len(dom) + 1), rng.choice(dom))        # the domain lists an object twice
@@ -69,15 +72,21 @@ class HistoryFamily:
                 else:
                     guard = None
             pred = rng.random() < 0.5 or guard is None
+            if rng.random() < (0.5 if big else 0.1):
+                guard, pred = None, False                                       # no condition at all: an(entity(x))
             queries.append(dict(guard=guard, pred=pred))
         ops = []
+        if big:
+            # more than 20 elements memoised by an abandoned evaluation, the rest of the iterator still unread
+            queries[0] = dict(guard=None, pred=False)
+            ops.append(['take', 0, rng.randint(21, len(dom))])
         for _ in range(rng.randint(1, max_ops)):
             i = rng.randrange(len(queries))
             r = rng.random()
             if r < 0.3:
                 ops.append(['full', i])
             elif r < 0.75 or not queries[i]['pred']:
-                ops.append(['take', i, rng.randint(0, len(dom) + 1) if rng.random() < 0.3 else rng.randint(0, 3)])
+                ops.append(['take', i, rng.randint(0, len(dom) + 1) if rng.random() < (0.7 if big else 0.3) else rng.randint(0, 3)])
             else:
                 ops.append(['raise', i, rng.randint(1, len(dom))])
         ops.append(['full', rng.randrange(len(queries))])
@@ -200,7 +209,7 @@ class HistoryFamily:
         cs = []
         for q in case['pool']:
             c = dict(heap=case['heap'], doms=[d for d in case['doms'] if d[0] in {b[1] for b in q['binders']}], binders=q['binders'],
-                     sel=q['sel'], cond=q['cond'])
+                     sel=q['sel'], cond=q['cond'], wrappers=case.get('wrappers'))
             cs.append(coq_qcase(c))
         return f"Eval vm_compute in (run_qpool {n} [{'; '.join(cs)}])."
 
@@ -229,12 +238,13 @@ class HistoryFamily:
                     if obs[0] != 'p0' or len(obs) != len(spec) + 1:
                         return False
                     for o, s in zip(obs[1:], spec):
-                        if s == '-':
-                            if o.startswith('X'):
-                                return False
-                            continue
-                        m = re.match(r'(\[.*\])p\d+m\d+$', o)
-                        if not m or sorted(m.group(1)[1:-1].split(',')) != sorted(s[1:-1].split(',')):
+                        ms = re.match(r'(-|\[.*\])p(\d+)$', s)
+                        m = re.match(r'(\[.*\])p(\d+)m\d+$', o)
+                        if not m or not ms:
+                            return False
+                        if self.pid == 'C07' and m.group(2) != ms.group(2):
+                            return False            # more (or less) of the one-shot iterator has been read than the step needed
+                        if ms.group(1) != '-' and sorted(m.group(1)[1:-1].split(',')) != sorted(ms.group(1)[1:-1].split(',')):
                             return False
                 return True
             return Expect(ok, so)
@@ -262,6 +272,8 @@ class HistoryFamily:
                 if aborted:
                     rows = rows[:-1]
                 sel_all = all_selected(dict(sel=q['sel'], binders=q['binders'])) or q.get('infer')
+                # (a nested constructor argument is modelled as one more conjunct: the ORDER of the rows is not modelled)
+                exact = exact and not any(t[0] == 'nest' for t in q['sel'])
                 if op[0] == 'full' or (op[0] == 'raise' and not aborted):
                     if sel_all:
                         if (rows != ans) if exact else (sorted(rows) != sorted(ans)):
@@ -520,7 +532,8 @@ def infer_history(H, rng, tier):
     for _ in range(rng.randint(1, 3)):
         ops.append(['take', 0, rng.randint(0, 2)] if rng.random() < 0.7 else ['full', 0])
     ops.append(['full', 0])
-    return dict(kind='multi', heap=base['heap'], doms=base['doms'], pool=[q], ops=ops, share_terms=rng.random() < 0.5)
+    return dict(kind='multi', heap=base['heap'], doms=base['doms'], pool=[q], ops=ops, share_terms=rng.random() < 0.5,
+                wrappers=base.get('wrappers'))
 
 
 def join_history(H, rng, tier):
